@@ -353,7 +353,7 @@ FAMILIES = {'wire.response': fam_response, 'wire.request': fam_request, 'batch.i
             'batch.history': fam_history}
 SYSTEMATIC = {'wire.response': systematic_response, 'wire.request': systematic_request}
 PLAN = {
-    'quick': {'wire.response': 8000, 'wire.request': 5000, 'batch.idgen': 1500, 'batch.history': 3000},
+    'quick': {'wire.response': 56000, 'wire.request': 35000, 'batch.idgen': 10500, 'batch.history': 21000},
     'thorough': {'wire.response': 60000, 'wire.request': 40000, 'batch.idgen': 10000, 'batch.history': 30000},
 }
 THOROUGH_BUDGET_S = 600
